@@ -2,6 +2,7 @@ package actionlint
 
 import (
 	"fmt"
+	"sort"
 	"strings"
 )
 
@@ -89,7 +90,13 @@ func (rule *RuleWorkflowCall) checkWorkflowCallUsesLocal(call *WorkflowCall) {
 	}
 
 	// Validate inputs
-	for n, i := range m.Inputs {
+	ins := make([]string, 0, len(m.Inputs))
+	for n := range m.Inputs {
+		ins = append(ins, n)
+	}
+	sort.Strings(ins) // Report in deterministic order. The iteration order of map is random
+	for _, n := range ins {
+		i := m.Inputs[n]
 		if i != nil && i.Required {
 			if _, ok := call.Inputs[n]; !ok {
 				rule.Errorf(u.Pos, "input %q is required by %q reusable workflow", i.Name, u.Value)
@@ -116,7 +123,13 @@ func (rule *RuleWorkflowCall) checkWorkflowCallUsesLocal(call *WorkflowCall) {
 
 	// Validate secrets
 	if !call.InheritSecrets {
-		for n, s := range m.Secrets {
+		secs := make([]string, 0, len(m.Secrets))
+		for n := range m.Secrets {
+			secs = append(secs, n)
+		}
+		sort.Strings(secs) // Report in deterministic order. The iteration order of map is random
+		for _, n := range secs {
+			s := m.Secrets[n]
 			if s.Required {
 				if _, ok := call.Secrets[n]; !ok {
 					rule.Errorf(u.Pos, "secret %q is required by %q reusable workflow", s.Name, u.Value)
